@@ -29,7 +29,8 @@ def scratch_root():
     if _scratch_root is None:
         base = "/dev/shm" if os.path.isdir("/dev/shm") and os.access("/dev/shm", os.W_OK) else tempfile.gettempdir()
         _scratch_root = tempfile.mkdtemp(prefix="verif-%d-" % os.getpid(), dir=base)
-        atexit.register(lambda: shutil.rmtree(_scratch_root, ignore_errors=True))
+        if not os.environ.get("VERIF_KEEP"):      # VERIF_KEEP=1: leave inputs and TLC output behind for inspection
+            atexit.register(lambda: shutil.rmtree(_scratch_root, ignore_errors=True))
     return _scratch_root
 
 
